@@ -29,6 +29,8 @@ package single
 //@   ensures [fifo] old(len(bq.queue)) > 0 && err == nil ==> b != nil && b.Transactions == old(bq.queue[0].Transactions) && len(bq.queue) == old(len(bq.queue)) - 1
 //@   ensures [rest-shifted] old(len(bq.queue)) > 0 ==> forall k :: 0 <= k && k < len(bq.queue) ==> bq.queue[k].Transactions == old(bq.queue[k + 1].Transactions)
 //@   ensures [empty] old(len(bq.queue)) == 0 ==> err == nil && b != nil && len(b.Transactions) == 0 && del.count == 0
+// a batch leaves the queue only by being handed out: a call that fails hands nothing out and must leave the queue as it was
+//@   ensures [error-keeps-queue] err != nil ==> len(bq.queue) == old(len(bq.queue))
 //@   ensures [wal-delete-own-record] del ==> del.count == 1 && del.arg2.string == old(WalKey(bq.queue[0].Transactions))
 
 //@ func (c *Sequencer) SubmitBatchTxs(ctx, req) (resp, err)
